@@ -69,7 +69,7 @@ def run(module, cfg_lines, scratch, *, workers=4, timeout=600, simulate=None, de
         lines.append('CHECK_DEADLOCK FALSE')
     write_cfg(cfg, lines)
     meta = os.path.join(scratch, f'meta_{tag}_{int(time.time() * 1000) % 10 ** 9}')
-    jvm = ['java', '-XX:+UseParallelGC', f'-Xmx{heap}', '-Djava.io.tmpdir=' + scratch]
+    jvm = ['java', '-XX:+UseParallelGC', f'-Xmx{heap}', '-Xss64m', '-Djava.io.tmpdir=' + scratch]
     if dfs:
         jvm.append('-Dtlc2.tool.queue.IStateQueue=StateDeque')
     cmd = jvm + ['-cp', f'{JAR}:{DEPS}', 'tlc2.TLC', '-workers', str(workers), '-metadir', meta,
